@@ -5,6 +5,7 @@ set -euo pipefail
 OUT="$1"; TAG="$2"; shift 2
 HERE="$(cd "$(dirname "$0")/.." && pwd)"
 DRV="$HERE/driver/target/release/mirdump"
+[ -x "$DRV" ] || DRV="/verif/driver/target/release/mirdump"   # background snapshots of /verif have no build output
 REPO="${VERIF_REPO:-/repo}"
 [ -x "$DRV" ] || { echo "mirdump driver not built (run setup_cmd)"; exit 2; }
 TD="$(mktemp -d /tmp/mirdump.XXXXXX)"
